@@ -248,7 +248,7 @@ def conc_result(kind, inner, v):
 
 # --------------------------------------------------------------------------------------------------
 _CEX_COUNT = {}
-CEX_CAP = 3
+CEX_CAP = int(__import__('os').environ.get('VERIF_CEX_CAP', '3'))
 
 
 def claim(stats, facts, neg, mode, syms, meta, lemmas='unary', refine=True, timeout_ms=None):
@@ -259,9 +259,11 @@ def claim(stats, facts, neg, mode, syms, meta, lemmas='unary', refine=True, time
     if res == 'unknown':
         return 'unknown'
     key = (meta.get('harness'), meta.get('claim'))
-    _CEX_COUNT[key] = _CEX_COUNT.get(key, 0) + 1
-    if _CEX_COUNT[key] > CEX_CAP:
-        return None       # already enough counterexamples of this kind from this task (counted in stats.sat)
+    if _CEX_COUNT.get(key, 0) >= CEX_CAP:
+        # enough counterexamples of this kind were already produced by this task: this one is not refined / replayed
+        stats.sat -= 1
+        stats.unknown += 1
+        return 'unknown'
     soft = False
     if refine and mode is not None and getattr(mode, 'kind', '') == 'series' and pysym.Mode.square == 'abstract':
         r2, m2 = smt.refine_exact(list(facts), neg, timeout_ms=30000)
@@ -273,6 +275,7 @@ def claim(stats, facts, neg, mode, syms, meta, lemmas='unary', refine=True, time
             return 'unknown'      # abstraction too weak for this query: inconclusive, never a verdict
         else:
             soft = True
+    _CEX_COUNT[key] = _CEX_COUNT.get(key, 0) + 1
     cex = dict(meta)
     cex['inputs'] = model_inputs(m, mode, syms) if mode is not None else {k: smt.model_val(m, v) for k, v in syms.items()}
     cex['soft'] = soft
